@@ -22,7 +22,8 @@ BVals ==
 
 AllPositions ==
   {"field_addr", "type_size", "type_align", "singleton", "arr_len", "unk_len", "nested_arr_len", "vft_index", "vft_size",
-   "enum_val", "enum_singleton", "ext_size", "ext_align", "eval_addr", "fn_addr", "ptr_arr_len", "eval_arr_len"}
+   "enum_val", "enum_singleton", "ext_size", "ext_align", "eval_addr", "fn_addr", "ptr_arr_len", "eval_arr_len",
+   "empty_align", "empty_size"}
 
 QSeqs == {<<1, 1>>, <<1, 1, 1>>}
 
@@ -42,7 +43,8 @@ MkInput(ptr, pos, v, tname, fname) ==
                                 EXCEPT !.doc = <<>>]]
       E == [EnumDef("En", "pub", TNm("i64"), <<Variant("A", V(pos, "enum_val", v, NumNone), FALSE), Variant("B", NumNone, FALSE)>>)
               EXCEPT !.singleton = V(pos, "enum_singleton", v, None)]
-      m == [Module(<<"m">>, <<>>, <<T, E>>)
+      Em == [TypeDef("Em", "pub", <<>>) EXCEPT !.align = V(pos, "empty_align", v, None), !.size = V(pos, "empty_size", v, None)]
+      m == [Module(<<"m">>, <<>>, <<T, E, Em>>)
               EXCEPT !.exts = <<ExtType("X", V(pos, "ext_size", v, 8), V(pos, "ext_align", v, 4))>>,
                      !.evals = <<ExtVal("gv", "pub", TArr(TNm("X"), V(pos, "eval_arr_len", v, 2)), V(pos, "eval_addr", v, 4096))>>,
                      !.impls = <<Impl(tname, <<Func("h", "pub", <<>>, <<ArgC>>, TNone, V(pos, "fn_addr", v, 4096), None, "")>>)>>]
@@ -61,6 +63,18 @@ Init ==
                       <<TypeDef("D", "pub", <<Field("a", "pub", <<>>, TNm("X"), None, FALSE), Field("b", "pub", <<>>, TNm("X"), None, FALSE)>>)>>)
                       EXCEPT !.exts = <<ExtType("X", 4, 0)>>]>>]
      /\ tag = <<"shape", "extern-align-0">>
+  \/ /\ input = [ptr |-> 8, mods |-> <<[Module(<<"m">>, <<>>,
+                      <<TypeDef("D", "pub", <<Field("a", "pub", <<>>, TNm("X"), None, FALSE), Field("b", "pub", <<>>, TNm("Y"), None, FALSE),
+                                              Field("c", "pub", <<>>, TNm("Z"), None, FALSE)>>)>>)
+                      EXCEPT !.exts = <<ExtType("X", 0, Num("p62", 0)), ExtType("Y", 0, 3), ExtType("Z", 0, 5)>>]>>]
+     /\ tag = <<"shape", "extern-align-lcm">>
+  \/ /\ input = [ptr |-> 8, mods |-> <<[Module(<<"m">>, <<>>,
+                      <<TypeDef("B", "pub", <<Field("x", "pub", <<>>, TNm("u64"), None, FALSE)>>),
+                        TypeDef("C", "pub", <<Field("y", "pub", <<>>, TNm("u64"), None, FALSE)>>),
+                        TypeDef("D", "pub", <<Field("a", "pub", <<>>, TNm("B"), None, TRUE), Field("b", "pub", <<>>, TNm("C"), None, TRUE)>>)>>)
+                      EXCEPT !.impls = <<Impl("B", <<Func("r#type", "pub", <<>>, <<ArgC>>, TNone, 327680, None, "")>>),
+                                         Impl("C", <<Func("r#type", "pub", <<>>, <<ArgC>>, TNone, 393216, None, "")>>)>>]>>]
+     /\ tag = <<"shape", "raw-ident-rename">>
   \/ \E sq \in Sequences :
         /\ input = [MkInput(8, "none", Num("0", 0), "T", "a") EXCEPT !.mods = [i \in DOMAIN sq |-> @[1]]]
         /\ tag = <<"seq", "dup">>
